@@ -3809,8 +3809,8 @@ impl Zeroconf {
             trace!("StopResolve: removed queryer for {}", &host);
             let mut i = 0;
             while i < self.retransmissions.len() {
-                if let Command::Resolve(t, _) = &self.retransmissions[i].command {
-                    if t == &host {
+                if let Command::ResolveHostname(t, _, _, _) = &self.retransmissions[i].command {
+                    if t.to_lowercase() == host {
                         self.retransmissions.remove(i);
                         trace!("StopResolve: removed retransmission for {}", &host);
                         continue;
